@@ -17,7 +17,11 @@ def processLine (line : String) : String :=
   let toks := (line.trimAscii.toString.splitOn " ").filter (· ≠ "")
   match toks with
   | prop :: fn :: rest =>
-    let (args, out) := splitBar rest
+    let (args0, out0) := splitBar rest
+    -- `<observed internal inputs> ;; <outputs>`: decisions observed from the real code are extra model inputs
+    let (args, out) :=
+      if out0.contains ";;" then (args0 ++ out0.takeWhile (· ≠ ";;"), (out0.dropWhile (· ≠ ";;")).drop 1)
+      else (args0, out0)
     match dispatch prop fn with
     | none => "nomodel | skip no-handler"
     | some h =>
